@@ -49,6 +49,28 @@ pub fn any_rids(n: usize) -> Vec<ResourceId> {
     v
 }
 
+/// `StagesBuilder::insert` hands `insertion_target` the declared reads sorted and de-duplicated (writes as
+/// declared): harnesses that call `insertion_target` directly assume the same of the reads they pass.
+pub fn assume_sorted_dedup(v: &[ResourceId]) {
+    let mut i = 0;
+    while i + 1 < v.len() {
+        assume(v[i] < v[i + 1]);
+        i += 1;
+    }
+}
+
+/// position `i` of the `k`-th ordering of `n <= 3` items (k < 6 chosen by the solver)
+pub fn order_at(n: usize, k: usize, i: usize) -> usize {
+    const P3: [[usize; 3]; 6] = [[0, 1, 2], [0, 2, 1], [1, 0, 2], [1, 2, 0], [2, 0, 1], [2, 1, 0]];
+    if n <= 1 {
+        0
+    } else if n == 2 {
+        if k % 2 == 0 { i } else { 1 - i }
+    } else {
+        P3[k % 6][i]
+    }
+}
+
 // ---------------------------------------------------------------------------------------------
 // harness systems
 
